@@ -296,6 +296,14 @@ def parse_grouped(integration, fobj, strict=False, frame_metadata=None):
         yield container_items(integration, sink)
 
 
+def parse_grouped_retained(integration, fobj, strict=False):
+    """The consumer that keeps what it is given: every sink is collected first (list(parse_jelly_grouped(f))) and
+    only looked at once the stream has ended."""
+    m = parse_mod(integration)
+    kept = list(m.parse_jelly_grouped(fobj, logical_type_strict=strict))
+    return [container_items(integration, sink) for sink in kept], len({id(s) for s in kept})
+
+
 def parse_to_graph(integration, fobj, via_plugin=False):
     m = parse_mod(integration)
     if via_plugin:
